@@ -115,6 +115,52 @@ theorem splitOn_single {sep : UInt8} {a : List UInt8} (h : ∀ x ∈ a, x ≠ se
   · rename_i a' hc; rw [cut_none h] at hc; simp at hc; rw [hc]
   · rename_i a' t' hc; rw [cut_none h] at hc; simp at hc
 
+theorem splitOn_none {sep : UInt8} {s a : List UInt8} (h : cut sep s = (a, none)) : splitOn sep s = [a] := by
+  rw [splitOn]
+  split
+  · rename_i a' hc; rw [h] at hc; simp at hc; rw [hc]
+  · rename_i a' t' hc; rw [h] at hc; simp at hc
+
+theorem splitOn_some {sep : UInt8} {s a t : List UInt8} (h : cut sep s = (a, some t)) : splitOn sep s = a :: splitOn sep t := by
+  rw [splitOn]
+  split
+  · rename_i a' hc; rw [h] at hc; simp at hc
+  · rename_i a' t' hc; rw [h] at hc; simp at hc; rw [hc.1, hc.2]
+
+theorem splitOn_cons_eq {sep x : UInt8} (rest : List UInt8) (hx : (x == sep) = true) :
+    splitOn sep (x :: rest) = [] :: splitOn sep rest :=
+  splitOn_some (by simp [cut, hx])
+
+theorem splitOn_cons_ne {sep x : UInt8} (rest : List UInt8) (hx : (x == sep) = false) :
+    splitOn sep (x :: rest) = match splitOn sep rest with | h :: tl => (x :: h) :: tl | [] => [[x]] := by
+  cases hr : cut sep rest with
+  | mk a t =>
+    cases t with
+    | none =>
+      have h1 : cut sep (x :: rest) = (x :: a, none) := by simp [cut, hx, hr]
+      rw [splitOn_none h1, splitOn_none hr]
+    | some t =>
+      have h1 : cut sep (x :: rest) = (x :: a, some t) := by simp [cut, hx, hr]
+      rw [splitOn_some h1, splitOn_some hr]
+
+theorem splitOn_ne_nil (sep : UInt8) (a : List UInt8) : splitOn sep a ≠ [] := by
+  rw [splitOn]; split <;> simp
+
+/-- splitting distributes over a separator in the middle, whatever stands in front of it -/
+theorem splitOn_append_any (sep : UInt8) (a t : List UInt8) : splitOn sep (a ++ sep :: t) = splitOn sep a ++ splitOn sep t := by
+  induction a with
+  | nil =>
+    have h0 : splitOn sep [] = [[]] := splitOn_single (by simp)
+    simp [splitOn_cons_eq, h0]
+  | cons x a ih =>
+    by_cases hx : (x == sep) = true
+    · simp [splitOn_cons_eq _ hx, ih]
+    · have hx' : (x == sep) = false := by simpa using hx
+      rw [List.cons_append, splitOn_cons_ne _ hx', splitOn_cons_ne _ hx', ih]
+      cases hs : splitOn sep a with
+      | nil => exact absurd hs (splitOn_ne_nil sep a)
+      | cons h tl => simp
+
 theorem special_false {x : UInt8} (h : special x = false) : x ≠ 38 ∧ x ≠ 61 ∧ x ≠ 59 := by
   simp [special] at h; exact ⟨h.1.1, h.1.2, h.2⟩
 
